@@ -624,6 +624,10 @@ def generate(rng, index, tier):
     n_ops = rng.randint(3, 30 if tier == 'thorough' else 14)
     # (0 is always a candidate: the one seed that is falsy)
     seeds = [0] + rng.sample([1, 3, 11, 42, 12345, 999983], 2)
+    if rng.random() < 0.4:
+        # a seed beyond 32 bits that is congruent to another candidate
+        # modulo 2**32 (legal for a Generator; a different seed)
+        seeds.append(rng.choice(seeds) + 2 ** 32)
     ops = []
     n_gen = 0
     perturb_on = rng.random() < 0.8
